@@ -20,6 +20,15 @@ claimed = {
  'C14': ("table extraction from composite literals and switches on both sides + inverse/bijection comparison + protobuf struct-tag coverage + guard dominance in the HTTP handlers + pooled-buffer escape rule",
          "Encoder and decoder field tables are mutual inverses for the four metric types and events; every protobuf field is written and read; priority/alert switches are inverse bijections on all declared constants; each compressor's Content-Encoding selects the matching decompressor; dispatch is dominated by successful read/decompress/unmarshal and every handler path writes exactly one status; no request body aliases a pooled buffer.",
          "protobuf, zlib and lz4 round-trip behaviour is trusted."),
+ 'C15': ("acquire/release pairing and exactly-once counting on CFGs + per-iteration event counting in the per-split loop + guard classification of the retry-loop counters + slot take/put linearity + pooled-buffer escape rule",
+         "Semaphores are balanced around the merging and posting goroutines; each split element yields exactly one request (or one notification) carrying that element's map and header tags; sent/dropped/retried/invalid are counted once on the right edge and success/give-up leave the loop; each attempt gets a fresh body reader; consolidator slots are put back exactly once and a flush hands over drained maps and refills with fresh ones; SplitByTags is a partition. The UTF-8 serialisability clause fails and is listed as a known finding.",
+         "conservation under concurrency as a history property is not decided; HTTP client behaviour trusted."),
+ 'C16': ("linear (exactly-once) use analysis of the completion callback across closures, goroutines and channel moves + typestate of the sender's held stream + WaitGroup balance + semaphore pairing",
+         "For each of the 9 Backend implementations the callback is consumed exactly once on every control path; the socket sender drops a stream right after completing it and completes held/queued streams at shutdown; the flusher adds len(backends) and each callback does exactly one Done; HTTP collectors pass every result and the cancellation error to the callback; request slots are released on every path.",
+         "timing and 'the right error' are not decided; the nil-channel select idiom in sender.Run is trusted."),
+ 'C20': ("typestate automaton over the heartbeat loop + per-split notification counting + wiring/value-identity checks across manager, telemetry server, coordinator and forwarder",
+         "No path of the heartbeat reaches GET /next without a WaitForFlush since the last request, after an initial Flush; the forwarder posts before notifying with exactly one notification per request; WaitForFlush is a plain blocking receive; runtimeDone records trigger the coordinator's Flush; one coordinator instance is shared; manual mode disables timer flushing; start-up failure reaches init-error.",
+         "HTTP completion on the wire and AWS's delivery of runtimeDone are outside the code."),
  'C06': ("purity (effect) analysis of Bucket + per-closure exactly-once store counting on the CFG + value-identity of the dispatch index in SSA",
          "Bucket reads only its arguments and calls only adler32.Checksum; each Split/SplitByTags closure stores the element exactly once on every path under unchanged keys into the same-typed field of maps[Bucket(name,key,count)]; split i is sent to worker i and both are sized by one number. For every batch and shard count by construction of the code shape.",
          "go/ssa; adler32 determinism; the rule recognises the if/else insert idiom used today and fails closed on other shapes."),
